@@ -76,7 +76,7 @@ def run_demo(pid, n, release):
     """-> (passes, transcript)"""
     d = SRC % pid
     prof = "--release" if release else ""
-    prefer_rs = os.path.exists("%s/demo%d.rs" % (d, n)) and (os.path.exists("%s/run_demo.sh" % d) or ROUND == "3")
+    prefer_rs = os.path.exists("%s/demo%d.rs" % (d, n)) and (os.path.exists("%s/run_demo.sh" % d) or ROUND in ("3", "4"))
     if os.path.exists("%s/demo%d.yl" % (d, n)) and not prefer_rs:
         rc, out = sh("cargo build --manifest-path %s/Cargo.toml --offline -q %s -p yarel-cli >/dev/null 2>&1; cargo run --manifest-path %s/Cargo.toml --offline -q %s -p yarel-cli -- demo%d.yl 2>/dev/null" % (
             WT, prof, WT, prof, n), cwd=d, timeout=600)
@@ -84,7 +84,8 @@ def run_demo(pid, n, release):
         ok = matches(out, exp) and rc not in (101, 134, 139)      # a panic / abort / segfault never counts as passing
         return ok, "exit=%d\n%s" % (rc, out[-1500:])
     if os.path.exists("%s/demo%d.repl" % (d, n)):
-        rc, out = sh("cargo run --offline -q %s -p yarel-cli < %s/demo%d.repl 2>&1; echo \"exit status: $?\"" % (prof, d, n), cwd=WT, timeout=600)
+        rc, out = sh("cargo build --manifest-path %s/Cargo.toml --offline -q %s -p yarel-cli >/dev/null 2>&1; cargo run --manifest-path %s/Cargo.toml --offline -q %s -p yarel-cli < %s/demo%d.repl 2>&1; echo \"exit status: $?\"" % (
+            WT, prof, WT, prof, d, n), cwd=d, timeout=600)
         exp = open("%s/demo%d.expected" % (d, n)).read()
         ok = norm(out) == norm(exp)
         return ok, out[-1500:]
@@ -93,7 +94,7 @@ def run_demo(pid, n, release):
         if "#[test]" in src:
             dst = "%s/yarel/tests/demo%d.rs" % (WT, n)
             shutil.copy("%s/demo%d.rs" % (d, n), dst)
-            rc, out = sh("cargo test --offline %s -p yarel --features verif_hooks --test demo%d 2>&1 | tail -25" % (prof, n), cwd=WT, timeout=900)
+            rc, out = sh("cargo test --offline %s -p yarel --features verif_hooks --test demo%d -- --test-threads=1 2>&1 | tail -25" % (prof, n), cwd=WT, timeout=900)
             os.remove(dst)
             return ("test result: ok" in out), out[-1500:]
         if ROUND == "1":
@@ -133,7 +134,7 @@ def main():
         if os.path.exists(adapted):
             patch = adapted       # the agent's patch re-done by hand on top of later fix: commits (same change)
         meta = json.load(open((SRC % pid) + "/meta%d.json" % n))
-        release = meta.get("build_config") == "release"
+        release = str(meta.get("build_config")).startswith("release")
         sh("git reset -q --hard && git clean -qfd -e target", cwd=WT)
         ok_clean, tr_clean = run_demo(pid, n, release)
         
